@@ -240,6 +240,40 @@ for _o in (0, 1, 2):
     _mk(_o)
 
 
+for _kind, _nc, _na in (("ip", 0, 1), ("ea", 1, 0)):
+    def _mk(kind, nc, na):
+        for o in (0, 1, 2):
+            @tmpl(f"prop.mp.{kind}.expectation_value({o},1)", f"mp.{kind}", "",
+                  cost=4 if o == 2 else 1, tier="t" if o == 2 else "q")
+            def _(w, o=o): return w.call(w.prop("mp", kind), "expectation_value",
+                                         adc_order=o, n_particles=1)
+
+            @tmpl(f"prop.mp.{kind}.trans_moment({o})", f"mp.{kind}", "",
+                  cost=3 if o == 2 else 1, tier="t" if o == 2 else "q")
+            def _(w, o=o): return w.call(w.prop("mp", kind), "trans_moment", adc_order=o,
+                                         n_create=nc, n_annihilate=na)
+    _mk(_kind, _nc, _na)
+
+
+@tmpl("prop.mp.pp-ip.expectation_value(1,1)", "mp.pp", "", cost=2)
+def _(w):
+    from adcgen import Properties
+    p = w._get(("prop2", "mp", "pp", "ip"),
+               lambda: Properties(w.isr("mp", "pp"), w.isr("mp", "ip")))
+    return w.call(p, "expectation_value", adc_order=1, n_particles=1)
+
+
+@tmpl("prop.mp.ip-pp.trans_moment_space(1,h)", "mp.ip", "", cost=2)
+def _(w):
+    from adcgen import Properties
+    p = w._get(("prop2", "mp", "ip", "pp"),
+               lambda: Properties(w.isr("mp", "ip"), w.isr("mp", "pp")))
+    return w.call(p, "trans_moment_space", order=1, space="h", n_create=0, n_annihilate=1)
+
+
+_m_templates("mp", "ea", "p", "a", "b")
+
+
 # ----------------------------------------------------------------------------- intermediates
 _ITMD = [("t2_1", "ijab", "klcd"), ("t1_2", "ia", "jb"), ("t2_2", "ijab", "klcd"),
          ("t3_2", "ijkabc", "lmndef"), ("t4_2", "ijklabcd", "mnoiefgh"),
